@@ -495,7 +495,10 @@ func (r *ruleData) fromAuditRuleData(in *auditRuleData) error {
 	r.flags = in.Flags
 	r.action = in.Action
 	r.fields = make([]field, in.FieldCount)
-	r.allSyscalls = true
+	// Only the exact pattern that "-S all" is encoded with is listed as "all";
+	// any other mask is listed syscall by syscall so that it means the same
+	// when parsed again.
+	r.allSyscalls = in.Mask[len(in.Mask)-1] == 0x0000FFFF
 	for i := 0; r.allSyscalls && i < len(in.Mask)-1; i++ {
 		r.allSyscalls = in.Mask[i] == 0xFFFFFFFF
 	}
